@@ -20,6 +20,17 @@ def run_c01(ck, tier, rnd):
         cfg = peers.ServerCfg(banner=b'SSH-1.5-OpenSSH_1.2.3', ssh1={'cmask': cm, 'amask': am})
         for js in (False, True):
             scs.append({'argv': (['-j'] if js else ['-n']) + ['-1', rating.HOST], 'servers': {(rating.HOST, 22): cfg}})
+    # public-key messages of every length modulo 8 (the padding of an SSH-1 packet depends on it; a length that is a multiple of 8 gets
+    # eight bytes of padding): the host key modulus is 1024..1080 bits long
+    from harness.peers import _rand_int_bits
+    extra_pairs = []
+    for k in range(8):
+        hb = 1024 + 8 * k
+        cfg = peers.ServerCfg(banner=b'SSH-1.5-OpenSSH_1.2.3', ssh1={'cmask': 0x48, 'amask': 0x0c, 'hbits': hb, 'hn': _rand_int_bits(hb, ('s1h', hb))})
+        for js in (False, True):
+            scs.append({'argv': (['-j'] if js else ['-n']) + ['-1', rating.HOST], 'servers': {(rating.HOST, 22): cfg}})
+        extra_pairs.append((0x48, 0x0c))
+    pairs = pairs + extra_pairs
     # the SSH-2 -> SSH-1 fallback path
     cfg = peers.ServerCfg(banner=b'SSH-1.5-OpenSSH_1.2.3', ssh1={'cmask': 0x48, 'amask': 0x1c}, wrong_version_text=b'Protocol major versions differ.')
     scs.append({'argv': ['-n', rating.HOST], 'servers': {(rating.HOST, 22): cfg}})
